@@ -22,6 +22,12 @@ Readings adopted (where the statement leaves room):
     optional whitespace.
   * origin_id ranges over the values ProxyProofConfig admits (its own _ORIGIN_RE check); skew is any integer.
   * With enable_replay_cache=False row 9 never fires (theorem C22_equals_table_no_cache).
+  * Row 9 "nonce already seen within the window" (the theorems take it as an oracle; the implementation oracle and the
+    model's `seen` list use `seen_nonces`): a sighting counts while it is inside the 2*skew+1 s in which a proof carrying
+    the nonce can still verify AND among the `replay_capacity` most recent accepted sightings (C23's reading of the
+    capacity cap: forgetting the OLDEST on overflow is allowed, forgetting a younger one while an older remains is not).
+    Histories run through the real gate and through verify_proof + NonceCache with capacities 1/2/3/8 under a logical
+    clock, so the real cache (not only the oracle) decides row 9 in the correspondence.
 """
 from __future__ import annotations
 
@@ -146,8 +152,10 @@ def scenarios(ctx: Any) -> list[dict[str, Any]]:
 
     out: list[dict[str, Any]] = []
 
-    def scen(name: str, reqs: list[tuple[list[str], int]], keys: str = "rotation", origin: str = "w1", skew: int = 30, cache: bool = True) -> None:
-        out.append({"name": name, "keys": KEYMAPS[keys], "keymap": keys, "origin": origin, "skew": skew, "cache": cache, "reqs": reqs})
+    def scen(name: str, reqs: list[tuple[Any, ...]], keys: str = "rotation", origin: str = "w1", skew: int = 30, cache: bool = True, capacity: int | None = None) -> None:
+        # a request is (instances, wall clock) or (instances, wall clock, monotonic clock of the nonce cache)
+        out.append({"name": name, "keys": KEYMAPS[keys], "keymap": keys, "origin": origin, "skew": skew, "cache": cache, "capacity": capacity,
+                    "reqs": [(r[0], r[1], r[2] if len(r) > 2 else 0) for r in reqs]})
 
     T0 = 1_700_000_000
     # -- valid proofs, every key, every origin; clock offsets around +-skew
@@ -274,7 +282,55 @@ def scenarios(ctx: Any) -> list[dict[str, Any]]:
     for _ in range(25 if quick else 200):
         seq.append(([rng.choice(toks)], T0 + rng.randrange(-3, 4)))
     scen("random-history", seq)
+    # -- histories against the REAL NonceCache: small capacities, the cache's clock advancing with the wall clock.
+    #    Valid proofs with distinct / reused nonces at different times (some stale, some badly signed, some under the
+    #    rotated key); the oracle is the table with row 9 read as in `seen_nonces`.
+    P4 = [c * 22 for c in "ABCD"]
+
+    def tok(n: str, ts: int, kid: str = "prod-use1", sec: bytes = S1) -> str:
+        return make_token(sec, kid, str(ts), n, "w1")
+
+    A, B, C, D = P4
+    # last sighting outside the window while newer entries exist (window 61 s): A is fresh again at +65, B is not
+    scen("hist-expiry-behind-newer", [([tok(A, T0)], T0, 0), ([tok(B, T0 + 10)], T0 + 10, 10), ([tok(C, T0 + 20)], T0 + 20, 20),
+                                      ([tok(A, T0 + 65)], T0 + 65, 65), ([tok(B, T0 + 65)], T0 + 65, 65), ([tok(C, T0 + 81)], T0 + 81, 81), ([tok(B, T0 + 81)], T0 + 81, 81)])
+    # at the capacity cap the OLDEST is evicted, the newer ones stay protected
+    scen("hist-cap2-evicts-oldest", [([tok(A, T0)], T0, 0), ([tok(B, T0)], T0, 0), ([tok(C, T0)], T0, 0), ([tok(B, T0)], T0, 0), ([tok(C, T0)], T0, 0), ([tok(A, T0)], T0, 0)], capacity=2)
+    scen("hist-cap1", [([tok(A, T0)], T0, 0), ([tok(A, T0)], T0, 0), ([tok(B, T0)], T0, 0), ([tok(B, T0)], T0, 0), ([tok(A, T0)], T0, 0)], capacity=1)
+    scen("hist-cap3", [([tok(x, T0 + i)], T0 + i, i) for i, x in enumerate([A, B, C, D, B, C, D, A, A, B])], capacity=3)
+    for cap in (1, 2, 3, 8):
+        for skew in (1, 2, 5):
+            W = 2 * skew + 1
+            for h in range(3 if quick else 25):
+                t_off = 0
+                reqs: list[tuple[Any, ...]] = []
+                for _ in range(12 if quick else 24):
+                    t_off += rng.choice([0, 0, 1, 1, 2, skew, W - 1, W, W + 1])
+                    n = rng.choice(P4[: rng.choice([2, 3, 4])])
+                    r = rng.random()
+                    wall = T0 + t_off
+                    if r < 0.70:
+                        token = tok(n, wall + rng.randrange(-skew, skew + 1))
+                    elif r < 0.80:
+                        token = tok(n, wall + rng.randrange(-skew, skew + 1), "prod-use1-v2", S2)
+                    elif r < 0.88:
+                        token = tok(n, wall + rng.choice([-skew - 1, skew + 1]))          # outside the window: not accepted
+                    elif r < 0.96:
+                        token = tok(n, wall, "prod-use1", S2)                               # bad MAC: not accepted
+                    else:
+                        token = "junk"
+                    reqs.append(([token], wall, t_off))
+                scen(f"hist-random/cap{cap}/skew{skew}/{h}", reqs, skew=skew, capacity=cap)
     return out
+
+
+def seen_nonces(accepted: list[tuple[str, int]], capacity: int, skew: int, mono: int) -> set[str]:
+    """Row 9, "nonce already seen within the window", for a history of accepted (nonce, time of acceptance) pairs, oldest
+    first.  Reading (C23's, see NOTES.md): the window is the span in which a proof carrying the nonce can still verify,
+    2*skew+1 seconds after the sighting; the cache may forget at its capacity cap, but only the OLDEST sightings --
+    a sighting is remembered while it is among the `capacity` most recent ones and inside its window."""
+    recent = accepted[-capacity:] if capacity > 0 else []
+    return {n for n, t0 in recent if t0 + (2 * skew + 1) > mono}
 
 
 ALPH_B64 = string.ascii_uppercase + string.ascii_lowercase + string.digits + "-_"
@@ -335,10 +391,10 @@ def run(ctx: Any) -> None:
     real_hmac = P.hmac
     P.hmac = spy  # type: ignore[assignment]
     ctx.rule = (
-        "cases = scenario (key map x origin x skew x cache on/off) x sequence of requests (header instance list, clock) through one "
+        "cases = scenario (key map x origin x skew x cache on/off x replay capacity 1/2/3/8/default) x sequence of requests (header instance list, clock) through one "
         "gate instance, each in allow and in require mode; header values from a field-mutation grammar over valid tokens "
         "(field count, version, per-field charset/length/padding/non-ASCII, commas, 512 bound), clock offsets around +-skew, "
-        "histories of accepted nonces; distinct by (key map, origin, skew, cache, seen nonces, instances, clock); non-trivial = a header is present"
+        "histories of accepted nonces against the real NonceCache under a logical clock (reuse inside / outside the 2*skew+1 window, capacity overflow); distinct by (key map, origin, skew, cache, seen nonces, instances, clock); non-trivial = a header is present"
     )
     model_cases: list[tuple[str, str]] = []
     model_meta: list[dict[str, Any]] = []
@@ -368,12 +424,24 @@ def run(ctx: Any) -> None:
             keys, origin, skew = sc["keys"], sc["origin"], sc["skew"]
             clock = [0]
             gates = {}
+            mono = [0]
+            cap_kw = {} if sc["capacity"] is None else {"replay_capacity": sc["capacity"]}
+            capacity = sc["capacity"] if sc["capacity"] is not None else 10**9
             for mode in ("allow", "require"):
-                cfg = ProxyProofConfig(mode=mode, origin_id=origin, secrets=keys, skew_seconds=skew, enable_replay_cache=sc["cache"])
+                cfg = ProxyProofConfig(mode=mode, origin_id=origin, secrets=keys, skew_seconds=skew, enable_replay_cache=sc["cache"], **cap_kw)
                 gates[mode] = proxy_proof_gate(cfg, now=lambda: clock[0])
-            accepted: set[str] = set()   # history of accepted nonces of this gate
-            for instances, now in sc["reqs"]:
+                gc = cache_of(gates[mode])
+                if gc is not None:
+                    gc._clock = lambda: float(mono[0])   # the gate's own NonceCache, driven by a logical monotonic clock
+            # verify_proof called directly with a NonceCache configured as the gate configures it
+            direct = NonceCache(ttl_seconds=2 * skew + 1, capacity=sc["capacity"] or 100_000, clock=lambda: float(mono[0])) if sc["cache"] and sc["name"].startswith("hist") else None
+            accepted_log: list[tuple[str, int]] = []   # history of accepted (nonce, cache clock) of this gate, oldest first
+            history: list[list[Any]] = []
+            for instances, now, mono_now in sc["reqs"]:
                 clock[0] = now
+                mono[0] = mono_now
+                history.append([instances, now, mono_now])
+                accepted = seen_nonces(accepted_log, capacity, skew, mono_now)
                 req = falcon.testing.helpers.create_req(headers=[(PROOF_HEADER, v) for v in instances])
                 raw = req.get_header(PROOF_HEADER)
                 # the values the application sees: the HTTP layer strips optional whitespace around each instance
@@ -381,15 +449,18 @@ def run(ctx: Any) -> None:
                 if len(instances) == 1 and raw != values[0]:
                     values = [raw if raw is not None else ""]
                 repl = {"scenario": sc["name"], "instances": instances, "raw_seen_by_gate": raw, "keymap": sc["keymap"], "origin": origin, "skew": skew,
-                        "cache": sc["cache"], "now": now, "accepted_nonces_before": sorted(accepted)}
-                ctx.case([sc["keymap"], origin, skew, sc["cache"], sorted(accepted), instances, now], nontrivial=bool(instances))
+                        "cache": sc["cache"], "now": now, "accepted_nonces_before": sorted(accepted), "capacity": sc["capacity"], "cache_clock": mono_now,
+                        "history": [list(hh) for hh in history], "accepted_history": list(accepted_log)}
+                ctx.case([sc["keymap"], origin, skew, sc["cache"], sc["capacity"], list(accepted_log), mono_now, instances, now], nontrivial=bool(instances))
+                if sc["capacity"] is not None:
+                    ctx.tally("replay_capacity", sc["capacity"])
                 ctx.tally("instances", min(len(instances), 3))
                 del spy.calls[:]
                 cache_a = cache_of(gates["allow"])
-                before = set(cache_a._entries) if cache_a is not None else set()
+                before = dict(cache_a._entries) if cache_a is not None else {}
                 obs_a = observe(gates["allow"], req)
                 calls_a = list(spy.calls)
-                after = set(cache_a._entries) if cache_a is not None else set()
+                after = dict(cache_a._entries) if cache_a is not None else {}
                 obs_r = observe(gates["require"], falcon.testing.helpers.create_req(headers=[(PROOF_HEADER, v) for v in instances]))
                 ctx.count("impl_runs", 2)
                 # ---- decode the allow-mode observation
@@ -432,11 +503,31 @@ def run(ctx: Any) -> None:
                             "a present-but-empty VGI-Proxy-Proof header is reported as no_proof; table row 2 says malformed",
                             {**repl, "observed": dec, "table": want},
                         )
+                    elif want == ("replayed",) and dec[0] == "ok":
+                        ctx.violation("replay-accepted-inside-window", "a nonce accepted earlier, inside its window and among the `capacity` most recent sightings, is accepted again (table row 9: replayed)",
+                                      {**repl, "observed": dec, "table": want})
+                    elif want[0] == "ok" and dec == ("replayed",):
+                        ctx.violation("fresh-nonce-reported-replayed", "a correctly signed in-window proof is refused as replayed although its nonce was last accepted outside the window (or never)",
+                                      {**repl, "observed": dec, "table": want})
                     else:
                         ctx.violation(f"table-disagrees:{want[0]}-reported-{dec[0]}", "the gate's decision differs from the normative table", {**repl, "observed": dec, "table": want})
+                if direct is not None and len(values) == 1:
+                    try:
+                        cl = P.verify_proof(values[0], secrets=keys, origin_id=origin, skew_seconds=skew, nonce_cache=direct, now=now)
+                        dec_d: tuple[Any, ...] = ("ok", cl.get("proxy"), cl.get("kid"), cl.get("origin_id"))
+                    except ProofError as e:
+                        dec_d = (e.reason,)
+                    except BaseException as e:  # noqa: BLE001
+                        dec_d = ("other", type(e).__name__)
+                    ctx.count("impl_runs", 1)
+                    if dec_d != want:
+                        k = ("replay-accepted-inside-window" if want == ("replayed",) and dec_d[0] == "ok" else
+                             "fresh-nonce-reported-replayed" if want[0] == "ok" and dec_d == ("replayed",) else f"table-disagrees:{want[0]}-reported-{dec_d[0]}")
+                        ctx.violation(k, "verify_proof with a NonceCache(ttl=2*skew+1, capacity) decides differently from the normative table", {**repl, "path": "verify_proof", "observed": dec_d, "table": want})
                 # ---- oracle: nonce history moves only on acceptance
                 if cache_a is not None:
-                    added = after - before
+                    # new or refreshed entries (sweeping / eviction may remove others)
+                    added = {k for k in after if k not in before or after[k] != before[k]}
                     tok_nonce = values[0].split(".")[3] if len(values) == 1 and values[0].count(".") == 4 else None
                     if dec[0] == "ok" and added != {tok_nonce}:
                         ctx.violation("accepted-nonce-not-recorded", "an accepted proof did not record exactly its nonce", {**repl, "added": sorted(added)})
@@ -445,7 +536,7 @@ def run(ctx: Any) -> None:
                 # ---- model case
                 seen_before = sorted(accepted)
                 if dec[0] == "ok":
-                    accepted.add(values[0].split(".")[3])
+                    accepted_log.append((values[0].split(".")[3], mono_now))
                 if dec[0] == "ok":
                     expect = f"(0%N, ({cstr(dec[1])}, ({cstr(dec[2])}, {cstr(dec[3])})))"
                 elif dec[0] in REASON_NUM:
@@ -575,29 +666,52 @@ def replay(ctx: Any, data: dict[str, Any]) -> None:
         run(ctx)   # app-level (401) findings and broken obligations: re-run the whole deterministic check
         return
     keys = keymaps()[r["keymap"]]
-    cfg = ProxyProofConfig(mode="allow", origin_id=r["origin"], secrets=keys, skew_seconds=r["skew"], enable_replay_cache=r["cache"])
-    gate = proxy_proof_gate(cfg, now=lambda: r["now"])
+    cap_kw = {} if r.get("capacity") is None else {"replay_capacity": r["capacity"]}
+    capacity = r["capacity"] if r.get("capacity") is not None else 10**9
+    cfg = ProxyProofConfig(mode="allow", origin_id=r["origin"], secrets=keys, skew_seconds=r["skew"], enable_replay_cache=r["cache"], **cap_kw)
+    clock, mono = [r["now"]], [0]
+    gate = proxy_proof_gate(cfg, now=lambda: clock[0])
+    gate_cache = None
     for cell in gate._fn.__closure__ or ():
         try:
             if isinstance(cell.cell_contents, NonceCache):
-                for n in r.get("accepted_nonces_before", []):
-                    cell.cell_contents.check_and_add(n)
+                gate_cache = cell.cell_contents
+                gate_cache._clock = lambda: float(mono[0])
         except ValueError:
             pass
-    req = falcon.testing.helpers.create_req(headers=[(PROOF_HEADER, v) for v in r["instances"]])
-    raw = req.get_header(PROOF_HEADER)
-    values = [v.strip(" \t") for v in r["instances"]]
-    if len(values) == 1 and raw != values[0]:
-        values = [raw if raw is not None else ""]
-    dec: tuple[Any, ...]
-    try:
-        c = gate(req)
-        dec = ("ok", c["proxy"], c["kid"], c["origin_id"]) if c.get("verified") == "true" else (c.get("reason"),)
-    except ProofError as e:
-        dec = ("raised-in-allow", e.reason)
-    except BaseException as e:  # noqa: BLE001
-        dec = ("other", type(e).__name__)
-    want = table(values, keys, r["origin"], r["skew"], set(r.get("accepted_nonces_before", [])) if r["cache"] else set(), r["now"])
+    direct = NonceCache(ttl_seconds=2 * r["skew"] + 1, capacity=r.get("capacity") or 100_000, clock=lambda: float(mono[0])) if r.get("path") == "verify_proof" else None
+    # the whole recorded history of this gate instance, the failing request last
+    history = r.get("history") or [[r["instances"], r["now"], r.get("cache_clock", 0)]]
+    accepted_log: list[tuple[str, int]] = []
+    dec: tuple[Any, ...] = ("not-run",)
+    want: tuple[Any, ...] = ("not-run",)
+    for instances, now, mono_now in history:
+        clock[0], mono[0] = now, mono_now
+        req = falcon.testing.helpers.create_req(headers=[(PROOF_HEADER, v) for v in instances])
+        raw = req.get_header(PROOF_HEADER)
+        values = [v.strip(" \t") for v in instances]
+        if len(values) == 1 and raw != values[0]:
+            values = [raw if raw is not None else ""]
+        seen = seen_nonces(accepted_log, capacity, r["skew"], mono_now) if r["cache"] else set()
+        want = table(values, keys, r["origin"], r["skew"], seen, now)
+        try:
+            if direct is not None and len(values) == 1:
+                from vgi_rpc.http._proof import verify_proof
+
+                c = verify_proof(values[0], secrets=keys, origin_id=r["origin"], skew_seconds=r["skew"], nonce_cache=direct, now=now)
+            else:
+                c = gate(req)
+            dec = ("ok", c["proxy"], c["kid"], c["origin_id"]) if c.get("verified") == "true" else (c.get("reason"),)
+        except ProofError as e:
+            dec = (e.reason,) if direct is not None else ("raised-in-allow", e.reason)
+        except BaseException as e:  # noqa: BLE001
+            dec = ("other", type(e).__name__)
+        ctx.log(f"replay: t={mono_now:>4} instances={[v[:60] for v in instances]!r}: decided {dec[0]}, table {want[0]}")
+        if dec[0] == "ok":
+            accepted_log.append((values[0].split(".")[3], mono_now))
+        if tuple(dec) != tuple(want):
+            break
+    r = {**r, "instances": history[-1][0], "now": history[-1][1]}
     ctx.case([r["instances"], r["now"]])
     ctx.count("impl_runs", 1)
     ctx.log(f"replay: instances={r['instances']!r}: the gate decided {dec}, the table says {want}")
